@@ -2,6 +2,7 @@ CONSTANTS
   UseBuilt = TRUE
   KindsUsed = {"circuit", "unitary", "state", "system"}
   LevelsUsed = {1, 2, 3, 4}
+  GSUsed = {1, 2, 3, 4, 5, 6}
 SPECIFICATION Spec
 INVARIANT TypeOK
 INVARIANT NeverStuck
